@@ -24,7 +24,10 @@
 //   U <cat#> <name>                          handle_for_subcategory(category handle #cat, name)   -> subcategory handle #k (k-th U)
 //   every frame token may end in ^c<cat#> (a CategoryHandle), ^s<sub#> (a SubcategoryHandle), ^C<name>,<colour> (a Category value) or
 //   ^S<name>,<colour>,<subcategory> (a Subcategory value): what is passed where the API takes `impl IntoSubcategoryHandle`
-//   (no suffix = CategoryHandle::OTHER); colours are spelled as they are serialized
+//   (no suffix = CategoryHandle::OTHER); colours are spelled as they are serialized; a further suffix !<bits> gives the FrameFlags
+//   (1 = IS_JS, 2 = IS_RELEVANT_FOR_JS; default empty)
+//   S2 <thread#> <time_ns> <w> <frames..>    add_sample whose stack is built by handle_for_stack_frames (one call) instead of handle_for_stack per frame
+//   B <thread#> <time_ns> <addr> <size> <frames..>   add_allocation_sample (size may be negative: a deallocation)
 //   C <proc#> <name>                         add_counter                       -> counter #k
 //   D <counter#> <time_ns> <value> <n>       add_counter_sample
 //   V <thread#> / W <thread#>                add_initial_visible_thread / add_initial_selected_thread
@@ -143,22 +146,22 @@ pub struct Handles {
     pub subs: Vec<SubcategoryHandle>,
 }
 
-fn frame_of<SC: IntoSubcategoryHandle>(profile: &mut Profile, thread: ThreadHandle, f: &str, sc: SC, nsyms: &[NativeSymbolHandle]) -> FrameHandle {
+fn frame_of<SC: IntoSubcategoryHandle>(profile: &mut Profile, thread: ThreadHandle, f: &str, sc: SC, flags: FrameFlags, nsyms: &[NativeSymbolHandle]) -> FrameHandle {
     if let Some(n) = f.strip_prefix('l') {
         let s = profile.handle_for_string(if n == "~" { "" } else { n });
-        profile.handle_for_frame_with_label(thread, s, sc, FrameFlags::empty())
+        profile.handle_for_frame_with_label(thread, s, sc, flags)
     } else if let Some(a) = f.strip_prefix('a') {
         let a = u64::from_str_radix(a, 16).unwrap();
-        profile.handle_for_frame_with_address(thread, FrameAddress::InstructionPointer(a), sc, FrameFlags::empty())
+        profile.handle_for_frame_with_address(thread, FrameAddress::InstructionPointer(a), sc, flags)
     } else if let Some(a) = f.strip_prefix('r') {
         let a = u64::from_str_radix(a, 16).unwrap();
-        profile.handle_for_frame_with_address(thread, FrameAddress::ReturnAddress(a), sc, FrameFlags::empty())
+        profile.handle_for_frame_with_address(thread, FrameAddress::ReturnAddress(a), sc, flags)
     } else if let Some(rest) = f.strip_prefix('L') {
         let p: Vec<&str> = rest.split('|').collect();
         let s = profile.handle_for_string(p[0]);
         let file_path = if p[1] == "-" { None } else { Some(profile.handle_for_string(p[1])) };
         let loc = SourceLocation { file_path, line: opt_u32(p[2]), col: opt_u32(p[3]) };
-        profile.handle_for_frame_with_label_and_source_location(thread, s, loc, sc, FrameFlags::empty())
+        profile.handle_for_frame_with_label_and_source_location(thread, s, loc, sc, flags)
     } else if f.starts_with('y') || f.starts_with('z') {
         let p: Vec<&str> = f[1..].split('|').collect();
         let a = u64::from_str_radix(p[0], 16).unwrap();
@@ -167,36 +170,50 @@ fn frame_of<SC: IntoSubcategoryHandle>(profile: &mut Profile, thread: ThreadHand
         let name = if p[2] == "-" { None } else { Some(profile.handle_for_string(p[2])) };
         let file_path = if p[3] == "-" { None } else { Some(profile.handle_for_string(p[3])) };
         let info = FrameSymbolInfo { name, native_symbol, source_location: SourceLocation { file_path, line: opt_u32(p[4]), col: opt_u32(p[5]) } };
-        profile.handle_for_frame_with_address_and_symbol(thread, addr, info, p[6].parse().unwrap(), sc, FrameFlags::empty())
+        profile.handle_for_frame_with_address_and_symbol(thread, addr, info, p[6].parse().unwrap(), sc, flags)
     } else {
         panic!("bad frame {f}")
+    }
+}
+
+fn frame_handle(profile: &mut Profile, thread: ThreadHandle, tok: &str, h: &Handles) -> FrameHandle {
+    let (tok, flags) = match tok.split_once('!') {
+        Some((t, b)) => (t, FrameFlags::from_bits_truncate(b.parse().unwrap())),
+        None => (tok, FrameFlags::empty()),
+    };
+    let (f, sc) = match tok.split_once('^') {
+        Some((f, sc)) => (f, Some(sc)),
+        None => (tok, None),
+    };
+    match sc {
+        None => frame_of(profile, thread, f, CategoryHandle::OTHER, flags, &h.nsyms),
+        Some(x) if x.starts_with('c') => frame_of(profile, thread, f, h.cats[x[1..].parse::<usize>().unwrap()], flags, &h.nsyms),
+        Some(x) if x.starts_with('s') => frame_of(profile, thread, f, h.subs[x[1..].parse::<usize>().unwrap()], flags, &h.nsyms),
+        Some(x) if x.starts_with('C') => {
+            let p: Vec<&str> = x[1..].split(',').collect();
+            frame_of(profile, thread, f, Category(p[0], color_of(p[1])), flags, &h.nsyms)
+        }
+        Some(x) if x.starts_with('S') => {
+            let p: Vec<&str> = x[1..].split(',').collect();
+            frame_of(profile, thread, f, Subcategory(Category(p[0], color_of(p[1])), p[2]), flags, &h.nsyms)
+        }
+        Some(x) => panic!("bad subcategory {x}"),
     }
 }
 
 fn stack_of(profile: &mut Profile, thread: ThreadHandle, frames: &[&str], h: &Handles) -> Option<StackHandle> {
     let mut stack = None;
     for tok in frames {
-        let (f, sc) = match tok.split_once('^') {
-            Some((f, sc)) => (f, Some(sc)),
-            None => (*tok, None),
-        };
-        let fh = match sc {
-            None => frame_of(profile, thread, f, CategoryHandle::OTHER, &h.nsyms),
-            Some(x) if x.starts_with('c') => frame_of(profile, thread, f, h.cats[x[1..].parse::<usize>().unwrap()], &h.nsyms),
-            Some(x) if x.starts_with('s') => frame_of(profile, thread, f, h.subs[x[1..].parse::<usize>().unwrap()], &h.nsyms),
-            Some(x) if x.starts_with('C') => {
-                let p: Vec<&str> = x[1..].split(',').collect();
-                frame_of(profile, thread, f, Category(p[0], color_of(p[1])), &h.nsyms)
-            }
-            Some(x) if x.starts_with('S') => {
-                let p: Vec<&str> = x[1..].split(',').collect();
-                frame_of(profile, thread, f, Subcategory(Category(p[0], color_of(p[1])), p[2]), &h.nsyms)
-            }
-            Some(x) => panic!("bad subcategory {x}"),
-        };
+        let fh = frame_handle(profile, thread, tok, h);
         stack = Some(profile.handle_for_stack(thread, fh, stack));
     }
     stack
+}
+
+/// the same stack through Profile::handle_for_stack_frames: the frames are made inside the callback, one per call
+fn stack_of_iter(profile: &mut Profile, thread: ThreadHandle, frames: &[&str], h: &Handles) -> Option<StackHandle> {
+    let mut it = frames.iter();
+    profile.handle_for_stack_frames(thread, |p| it.next().map(|tok| frame_handle(p, thread, tok, h)))
 }
 
 pub fn run(line: &str) -> String {
@@ -267,6 +284,16 @@ pub fn run(line: &str) -> String {
                     let th = threads[t[1].parse::<usize>().unwrap()];
                     let stack = stack_of(&mut profile, th, &t[4..], &hd);
                     profile.add_sample(th, ns(t[2]), stack, CpuDelta::ZERO, t[3].parse().unwrap());
+                }
+                "S2" => {
+                    let th = threads[t[1].parse::<usize>().unwrap()];
+                    let stack = stack_of_iter(&mut profile, th, &t[4..], &hd);
+                    profile.add_sample(th, ns(t[2]), stack, CpuDelta::ZERO, t[3].parse().unwrap());
+                }
+                "B" => {
+                    let th = threads[t[1].parse::<usize>().unwrap()];
+                    let stack = stack_of(&mut profile, th, &t[5..], &hd);
+                    profile.add_allocation_sample(th, ns(t[2]), stack, t[3].parse().unwrap(), t[4].parse().unwrap());
                 }
                 "K" => {
                     let th = threads[t[1].parse::<usize>().unwrap()];
